@@ -44,6 +44,9 @@ KEEP = {"entry", "struct_keywords", "pdbx_database_status", "struct",
         "entity", "exptl", "audit_author", "cell", "symmetry", "atom_sites",
         "database_PDB_matrix", "audit_conform"}
 _HEAD = None
+# model serial numbers of multi-model entries: an ensemble subset numbered 9,
+# 10 (file order is not the lexicographic order of the numbers)
+MODEL0 = 9
 
 
 def cif_header():
@@ -87,7 +90,7 @@ def cif_text(models):
     lines = [cif_header(), "loop_"]
     lines += [f"_atom_site.{i}" for i in ITEMS]
     serial = 1
-    for mi, atoms in enumerate(models, start=1):
+    for mi, atoms in enumerate(models, start=MODEL0 if len(models) > 1 else 1):
         for a in atoms:
             x, y, z = a["xyz"]
             elem = next((c for c in a["name"] if c.isalpha()), "X")
@@ -106,7 +109,7 @@ def cif_text(models):
 def pdb_text(models):
     lines = ["HEADER    VERIF BUILT STRUCTURE                   01-JAN-00   XXXX"]
     multi = len(models) > 1
-    for mi, atoms in enumerate(models, start=1):
+    for mi, atoms in enumerate(models, start=MODEL0 if multi else 1):
         if multi:
             lines.append(f"MODEL     {mi:>4}")
         serial = 1
